@@ -35,6 +35,14 @@ is below 3p, with the letter the documented intervals give, where
 p = (1 - exp(-t/T1))/4 is computed here with math.exp, and the register state
 equals pre-state -> that Pauli -> the operation on the reference engine.
 
+Rotations: `remote_apply_rotation` is exercised with angles that are a whole number of turns (0, +-2pi, +-4pi),
+Clifford angles and arbitrary ones, about each coordinate axis, on the real engine (which refuses every rotation with
+SimUnsupportedError AFTER the noise was applied and the idle clock restarted) and on a stand-in that carries out whole
+and half turns (`World.engine_class("turns")`); the qubit's own idle clock is judged directly (`own-clock`), and a
+missing Pauli in front of a missing / refused operation is reported as `on-noise-skipped`.  The generated call table
+(`gen/noise_calls.py`) requires the noise hook to be reached on EVERY path: a statement in front of it that can
+leave the method (an identity shortcut, an early refusal) breaks the obligation `every_operation_applies_noise_first`.
+
 Tie: every executed operation is also sent to the Lean model (driver `noise`,
 the generic model instantiated at IEEE doubles; the decision rule additionally
 at exact integers), observations compared verbatim."""
@@ -84,6 +92,11 @@ ENGINE = {"X": "apply_X", "K": "apply_K", "Y": "apply_Y", "Z": "apply_Z", "H": "
           "cnot": "apply_CNOT", "cphase": "apply_CPHASE"}
 PAULI = {"apply_X": "X", "apply_Y": "Y", "apply_Z": "Z"}
 ROT_ARGS = ((1, 0, 0), 0.5)
+# rotation angles worth meeting: a whole number of turns (the identity up to a phase: 0, +-2pi, +-4pi — NetQASM's
+# ROT_* with n = 0 produces angle 0), Clifford angles, arbitrary ones.  Every one of them is an operation on the qubit.
+ROT_ANGLES = [0.0, 2 * math.pi, -2 * math.pi, 4 * math.pi, -4 * math.pi, -0.0, math.pi / 2, math.pi, 0.5, 6.283185307179586,
+              1e-9, 3.0]
+ROT_AXES = [(1, 0, 0), (0, 1, 0), (0, 0, 1)]
 TOL = Fraction(1, 2 ** 54)      # 1 ulp of exp near 1, divided by 4
 
 
@@ -209,10 +222,33 @@ class World:
             setattr(cls, name, make(name, fn))
         cls._c19_spied = True
 
-    def engine(self, arr):
-        e = self.Engine(self.node, 0, maxQubits=16)
+    def engine(self, arr, kind="stabilizer"):
+        e = self.engine_class(kind)(self.node, 0, maxQubits=16)
         e.qubitReg = self.SS.StabilizerState(self.np.array(arr, dtype=bool))
         return e
+
+    def engine_class(self, kind):
+        """"stabilizer": the real engine (refuses every rotation with SimUnsupportedError).  "turns": the real engine
+        except that it accepts the rotations a stabilizer state can follow — a whole number of turns is the identity, a
+        half turn about a coordinate axis is that Pauli (global phases are not tracked); everything else is refused as
+        in the real engine.  The stand-in makes 'a rotation the backend carries out' reachable on this backend."""
+        if kind != "turns":
+            return self.Engine
+        if getattr(self, "_turns", None) is None:
+            base = self.Engine
+
+            class TurnEngine(base):
+                def apply_rotation(self, qubitNum, n, a):
+                    turns = a / (2 * math.pi)
+                    if abs(turns - round(turns)) < 1e-12:
+                        return None
+                    half = a / math.pi
+                    axis = tuple(n)
+                    if abs(half - round(half)) < 1e-12 and axis in ((1, 0, 0), (0, 1, 0), (0, 0, 1)):
+                        return getattr(base, "apply_" + "XYZ"[axis.index(1)])(self, qubitNum)
+                    return base.apply_rotation(self, qubitNum, n, a)
+            self._turns = TurnEngine
+        return self._turns
 
     def qubits(self, spy, n, noisy, T1, created):
         """n simulated qubits on `spy`, created at clock reading `created` through the real settings"""
@@ -245,23 +281,30 @@ def random_state(w, rng, n):
     return e.qubitReg.to_array().astype(int).tolist()
 
 
-def call_args(op, num, tgt):
+def rot_of(rot):
+    """(axis tuple, angle) from a case's / step's optional rotation arguments"""
+    if not rot:
+        return ROT_ARGS
+    return (tuple(rot[0]), rot[1])
+
+
+def call_args(op, num, tgt, rot=None):
     if op in ("cnot", "cphase"):
         return (num, tgt)
     if op == "rot":
-        return (num,) + ROT_ARGS
+        return (num,) + rot_of(rot)
     return (num,)
 
 
-def invoke(obj_or_engine, name, op, num, tgt, on_engine):
+def invoke(obj_or_engine, name, op, num, tgt, on_engine, rot=None):
     """the same operation either through the simulatedQubit method or directly on an engine"""
     if on_engine:
-        return getattr(obj_or_engine, ENGINE[op])(*call_args(op, num, tgt))
+        return getattr(obj_or_engine, ENGINE[op])(*call_args(op, num, tgt, rot))
     m = getattr(obj_or_engine, METHOD[op])
     if op in ("cnot", "cphase"):
         return m(tgt)
     if op == "rot":
-        return m(*ROT_ARGS)
+        return m(*rot_of(rot))
     return m()
 
 
@@ -302,6 +345,7 @@ def execute(w, res, case, qs, spy, i, queries, judge=True):
     measurement bit of the case.  Appends violations to res and (line, expected, case) to queries.
     Returns the list of Pauli letters observed."""
     op, tgt, x, now = case["op"], case.get("tgt"), case["x"], case["now"]
+    rot, ekind = case.get("rot"), case.get("engine", "stabilizer")
     q = qs[i]
     noisy, T1, last, num = bool(q.noisy), q.T1, q.last_accessed, q.num
     idle_since = case["idle_since"]           # the oracle's own bookkeeping, not q.last_accessed
@@ -316,28 +360,31 @@ def execute(w, res, case, qs, spy, i, queries, judge=True):
     exc, ret = None, None
     try:
         with w.np.errstate(all="ignore"):
-            ret = invoke(q, None, op, num, tgt, on_engine=False)
+            ret = invoke(q, None, op, num, tgt, on_engine=False, rot=rot)
     except Exception as e:                                    # noqa: BLE001 — classified below
         exc = type(e).__name__
     log = list(spy._log)
+    own_clock = q.last_accessed
     post = eng.qubitReg.to_array().astype(int).tolist()
     others_after = [(o.noisy, o.T1, o.last_accessed, o.num) for k, o in enumerate(qs) if k != i]
 
-    rep = {k: case[k] for k in ("op", "tgt", "x", "now", "mbit") if k in case}
+    rep = {k: case[k] for k in ("op", "tgt", "x", "now", "mbit", "rot", "engine") if case.get(k) is not None}
+    if op == "rot":
+        rep["rot"] = [list(rot_of(rot)[0]), rot_of(rot)[1]]
     rep.update({"noisy": noisy, "T1": T1, "created_or_last_op": idle_since, "idle_t": t, "num": num, "pre_state": pre,
                 "observed_calls": [fmt_call(*c) for c in log], "exception": exc})
     mname = METHOD[op]
-    want_req = (ENGINE[op], call_args(op, num, tgt))
+    want_req = (ENGINE[op], call_args(op, num, tgt, rot))
 
     # ---- reference: the same operation straight on an engine holding a copy of the pre-state
     def reference(letter):
-        r = w.engine(pre)
+        r = w.engine(pre, ekind)
         if letter:
             getattr(r, "apply_" + letter)(num)
         w.mbit = case["mbit"]
         rexc, rret = None, None
         try:
-            rret = invoke(r, None, op, num, tgt, on_engine=True)
+            rret = invoke(r, None, op, num, tgt, on_engine=True, rot=rot)
         except Exception as e:                                # noqa: BLE001
             rexc = type(e).__name__
         return r.qubitReg.to_array(standard_form=True).astype(int).tolist(), rret, rexc
@@ -380,7 +427,13 @@ def execute(w, res, case, qs, spy, i, queries, judge=True):
                     res.count("out-of-domain:" + ("T1<0" if T1 < 0 else "t<0"))
                     # only judged when the documented rate is not positive: then nothing may be applied
                     allowed = {None} if p_ref <= 0 else {None, "X", "Y", "Z"}
-                if not log or log[-1] != want_req:
+                if (not log or log[-1] != want_req) and in_domain and None not in allowed \
+                        and not any(n in PAULI for n, a in log):
+                    # (a shortcut / refusal in front of the noise hook: the operation is an operation all the same)
+                    viol("on-noise-skipped", "draw %r is below 3p (p=%r, idle %r s): one of %s must be applied at position %d "
+                         "before the operation, the register received %s (exception %s)" % (
+                             x, p_ref, t, sorted(map(str, allowed)), num, [fmt_call(*c) for c in log], exc))
+                elif not log or log[-1] != want_req:
                     viol("on-request-missing", "the requested call %s is not the last engine call: %s" % (
                         fmt_call(*want_req), [fmt_call(*c) for c in log]))
                 elif len(extra) > 1:
@@ -402,6 +455,13 @@ def execute(w, res, case, qs, spy, i, queries, judge=True):
                                 or exc != rexc:
                             viol("on-state", "state/outcome/exception differ from pre-state -> %s -> operation on a "
                                  "reference engine (outcome %r vs %r, exception %r vs %r)" % (got, ret, rret, exc, rexc))
+        # the qubit's own idle clock: restarted by the operation (whatever the draw, also when the backend refuses
+        # the operation afterwards) when noise is enabled, untouched when it is not
+        if noisy and own_clock != now:
+            viol("own-clock", "the operation did not restart the qubit's idle clock: last_accessed = %r, clock at the "
+                 "operation = %r (it was %r before)" % (own_clock, now, last))
+        if not noisy and own_clock != last:
+            viol("own-clock", "noise disabled but last_accessed moved: %r -> %r" % (last, own_clock))
         # the other simulated qubits of the register are not touched by this call (their clocks included)
         if others_before != others_after:
             viol("other-qubit-record", "fields of another simulated qubit changed: %r -> %r" % (others_before, others_after))
@@ -473,7 +533,9 @@ def run(ctx):
     res.rule = ("single operations: grid of idle time t x T1 x every operation kind x draws just below/at/just above "
                 "each of p, 2p, 3p (the doubles the code compares with) plus interior points, noise on and off, on "
                 "random stabilizer pre-states of 1-4 qubits; histories of 6-14 operations on 2-4 qubits with "
-                "advancing (sometimes equal, sometimes backward) clock; out-of-domain T1 <= 0; node scenarios on real "
+                "advancing (sometimes equal, sometimes backward) clock; out-of-domain T1 <= 0; rotations: angles 0, +-2pi, +-4pi, "
+                "pi/2, pi, arbitrary x axis x real engine / stand-in that accepts whole and half turns x every threshold "
+                "position, noise on and off (also in histories and node scenarios); node scenarios on real "
                 "virtual nodes: 9 directed layouts (registers merged by CNOT/CPHASE in both orders, new_qubit_inreg, "
                 "destructive measurement shifting positions, two nodes with remotely simulated qubits) x operated qubit "
                 "x operation kind x draw in each band, via virtualQubit (lock first) or directly; bystander family; "
@@ -483,18 +545,27 @@ def run(ctx):
     pool = {n: [random_state(w, rng, n) for _ in range(ctx.scale(6, 20))] for n in (1, 2, 3, 4)}
     bases = [1000.0, 1727712000.0]
 
-    def single(op, noisy, t, T1, x, base=None, nq=None):
+    def single(op, noisy, t, T1, x, base=None, nq=None, rot=None, engine=None):
         nq = nq or rng.choice([2, 3, 4] if op in ("cnot", "cphase") else [1, 2, 3, 4])
         pre = rng.choice(pool[nq])
-        spy = Spy(w.engine(pre))
+        if op == "rot" and rot is None:
+            # any rotation is an operation on the qubit: whole turns, Clifford angles and arbitrary ones alike
+            rot = [list(rng.choice(ROT_AXES)), rng.choice(ROT_ANGLES)]
+            engine = engine or rng.choice(["stabilizer", "turns"])
+        engine = engine or "stabilizer"
+        spy = Spy(w.engine(pre, engine))
         created = rng.choice(bases) if base is None else base
         qs = w.qubits(spy, nq, noisy, T1, created)
         i = rng.randrange(nq)
         tgt = rng.choice([k for k in range(nq) if k != i]) if op in ("cnot", "cphase") else None
         case = {"op": op, "tgt": tgt, "x": x, "now": created + t, "mbit": rng.randrange(2), "idle_since": created}
+        c = {"op": op, "noisy": noisy, "t": case["now"] - created, "T1": T1, "x": x, "pre": pre, "i": i, "tgt": tgt}
+        if op == "rot":
+            case["rot"], case["engine"] = rot, engine
+            c["rot"], c["engine"] = rot, engine
+            res.count("rot:%s:%s" % (engine, "whole-turns" if rot[1] % (2 * math.pi) == 0 else "other"))
         execute(w, res, case, qs, spy, i, queries)
-        res.case({"op": op, "noisy": noisy, "t": case["now"] - created, "T1": T1, "x": x, "pre": pre, "i": i, "tgt": tgt},
-                 nontrivial=bool(noisy) or t > 0)
+        res.case(c, nontrivial=bool(noisy) or t > 0)
 
     if ctx.replay and "method" in ctx.replay.get("input", {}):
         if getattr(ctx, "noise_table", None) is None:
@@ -508,11 +579,11 @@ def run(ctx):
         res.case(sc)
     elif ctx.replay:
         inp = ctx.replay.get("input", {})
-        spy = Spy(w.engine(inp["pre_state"]))
+        spy = Spy(w.engine(inp["pre_state"], inp.get("engine", "stabilizer")))
         nq = len(inp["pre_state"])
         qs = w.qubits(spy, nq, inp["noisy"], inp["T1"], inp["created_or_last_op"])
         case = {"op": inp["op"], "tgt": inp.get("tgt"), "x": inp["x"], "now": inp["now"], "mbit": inp.get("mbit", 0),
-                "idle_since": inp["created_or_last_op"]}
+                "idle_since": inp["created_or_last_op"], "rot": inp.get("rot"), "engine": inp.get("engine", "stabilizer")}
         execute(w, res, case, qs, spy, inp["num"], queries)
         res.case(inp)
     else:
@@ -540,6 +611,19 @@ def run(ctx):
             _, e = w.exp_sample((base + 1.0) - base, 1.0)
             for x in draw_positions((1 - e) / 4):
                 single(op, True, 1.0, 1.0, x, base=base)
+        # ---- rotations: every angle class x axis x both engines (the real one refuses every rotation AFTER the noise;
+        # the stand-in carries out whole and half turns) x every threshold position; noise on and off
+        base = 1000.0
+        _, e = w.exp_sample((base + 3.0) - base, 2.0)
+        xs = draw_positions((1 - e) / 4)
+        for angle in ROT_ANGLES + [round(rng.uniform(-7, 7), 6)]:
+            for engine in ("stabilizer", "turns"):
+                axes = ROT_AXES if ctx.thorough else [rng.choice(ROT_AXES)]
+                for axis in axes:
+                    for x in xs:
+                        single("rot", True, 3.0, 2.0, x, base=base, rot=[list(axis), angle], engine=engine)
+                    single("rot", False, 3.0, 2.0, rng.choice([0.0, 0.1, 0.9]), base=base, rot=[list(axis), angle],
+                           engine=engine)
         # ---- noise off: any idle time, any draw, any T1 (including 0 and negative)
         for t in ts + [1e9]:
             for T1 in [0.0, -1.0, 1e-3, 1.0, 1e6]:
@@ -576,7 +660,27 @@ def run(ctx):
     tab = getattr(ctx, "noise_table", None)
     if tab is not None:
         validate_table(res, tab)
+    res.violations = order_violations(res.violations)
     return res
+
+
+def order_violations(vs):
+    """one report per distinct key first (the verdict prints the first five), and within a key the smallest input
+    (fewest qubits in the register, then in generation order)"""
+    def size(v):
+        r = v.get("replay") or {}
+        if "steps" in r:
+            return len(r["steps"])
+        return len(r.get("pre_state") or [])
+    by_key = {}
+    for v in vs:
+        by_key.setdefault(v["key"], []).append(v)
+    groups = [sorted(g, key=size) for g in by_key.values()]
+    out, k = [], 0
+    while any(k < len(g) for g in groups):
+        out += [g[k] for g in groups if k < len(g)]
+        k += 1
+    return out
 
 
 def history(ctx, w, res, rng, pool, queries):
@@ -584,7 +688,8 @@ def history(ctx, w, res, rng, pool, queries):
     judged and tied one-step, and every qubit's whole history is tied through the model's `run`"""
     nq = rng.choice([2, 3, 4])
     pre = rng.choice(pool[nq])
-    spy = Spy(w.engine(pre))
+    ekind = rng.choice(["stabilizer", "turns"])
+    spy = Spy(w.engine(pre, ekind))
     noisy = rng.random() < 0.8
     T1 = rng.choice([0.05, 0.5, 1.0, 3.0, 40.0])
     created = rng.choice([1000.0, 1727712000.0])
@@ -618,6 +723,8 @@ def history(ctx, w, res, rng, pool, queries):
         else:
             x = rng.random()
         case = {"op": op, "tgt": tgt, "x": x, "now": now, "mbit": rng.randrange(2), "idle_since": idle_since[i]}
+        if op == "rot":
+            case["rot"], case["engine"] = [list(rng.choice(ROT_AXES)), rng.choice(ROT_ANGLES)], ekind
         execute(w, res, case, qs[:alive], spy, i, queries)
         per_qubit[i].append(case["_model_step"])
         res.case({"history-step": op, "noisy": noisy, "t": t, "T1": T1, "x": x, "i": i, "tgt": tgt, "pre": pre,
@@ -645,7 +752,7 @@ def history(ctx, w, res, rng, pool, queries):
 #   ["inreg", label, other]                    new_qubit_inreg in the register of `other` (appended)
 #   ["send", label, node]                      client call send_qubit (the simulated qubit stays where it is)
 #   ["tick", dt]                               the scripted clock of quantum.py advances
-#   ["op", op, label, target|None, draw, mbit, via]
+#   ["op", op, label, target|None, draw, mbit, via]      (+ optional 8th element [axis, angle] for op "rot")
 #       via "virt": callRemote on the virtualQubit reference (apply_*, measure(inplace), cnot_onto/cphase_onto);
 #       via "sim":  the simulatedQubit method directly (as the single-register cases above do)
 # Every "op" is judged.  The harness keeps its OWN register book (which labels sit in which engine object, in which
@@ -658,7 +765,7 @@ VIRT_CALL = {"X": ("apply_X",), "K": ("apply_K",), "Y": ("apply_Y",), "Z": ("app
              "T": ("apply_T",), "rot": ("apply_rotation",) + ROT_ARGS, "measInplace": ("measure", True),
              "meas": ("measure", False), "cnot": ("cnot_onto",), "cphase": ("cphase_onto",)}
 NODE_KEYS = ("raises", "stale-engine-call", "on-request-missing", "on-more-than-one", "on-other-register",
-             "on-other-qubit", "on-wrong-choice", "on-state", "other-qubit-clock", "bookkeeping")
+             "on-other-qubit", "on-wrong-choice", "on-state", "own-clock", "other-qubit-clock", "bookkeeping")
 
 
 class NodeRun:
@@ -789,7 +896,8 @@ class NodeRun:
 
     def do_op(self, i, st):
         w, net, S = self.w, self.net, self.S
-        _, op, lab, tgtlab, x, mbit, via = st
+        _, op, lab, tgtlab, x, mbit, via = st[:7]
+        rot = st[7] if len(st) > 7 else None
         two = op in ("cnot", "cphase")
         R = self.reg_of(lab)
         T = self.reg_of(tgtlab) if two else None
@@ -804,6 +912,7 @@ class NodeRun:
         t = now - self.idle_since[lab]
         T1 = self.sc["T1"]
         rep_base = {"failing_step": i, "op": op, "qubit": lab, "target": tgtlab, "via": via, "draw": x, "mbit": mbit,
+                    **({"rot": [list(rot_of(rot)[0]), rot_of(rot)[1]]} if op == "rot" else {}),
                     "idle_t": t, "T1": T1, "position_now": pos, "register_labels": list(R["labels"]),
                     "merges_registers": bool(merge)}
         # the code's own book must agree with ours (C02's subject; everything below presupposes it)
@@ -823,7 +932,7 @@ class NodeRun:
         w.englog = []
         try:
             if via == "virt":
-                call = VIRT_CALL[op]
+                call = VIRT_CALL[op] if op != "rot" else ("apply_rotation",) + rot_of(rot)
                 args = call[1:] + ((self.h[tgtlab]["ref"],) if two else ())
                 with w.np.errstate(all="ignore"):
                     r = net.run(self.h[lab]["ref"].callRemote(call[0], *args))
@@ -835,7 +944,7 @@ class NodeRun:
                 exc, ret = None, None
                 try:
                     with w.np.errstate(all="ignore"):
-                        ret = invoke(sq, None, op, pos, tpos, on_engine=False)
+                        ret = invoke(sq, None, op, pos, tpos, on_engine=False, rot=rot)
                 except Exception as e:                                # noqa: BLE001 — judged below
                     exc = type(e).__name__
                     rep_base["exception_text"] = str(e)[:200]
@@ -843,10 +952,11 @@ class NodeRun:
             log, w.englog = w.englog, None
             w.draws.x = 0.999
         live_after = self.live_engines()
+        own_clock = sq.last_accessed
         self.judged.append(i)
 
         eop = "measInplace" if op == "meas" else op       # what the simulated qubit is asked to do
-        want = (ENGINE[eop], call_args(eop, pos, tpos))
+        want = (ENGINE[eop], call_args(eop, pos, tpos, rot))
         F = [(e, n, tuple(a)) for (e, n, a) in log if n in PAULI or n == want[0]]
         rep_base["observed_calls"] = ["%s on register #%s%s" % (fmt_call(n, a), getattr(e, "num", "?"),
                                                                  "" if (id(e) in live_before or id(e) in live_after)
@@ -869,7 +979,7 @@ class NodeRun:
             w.mbit = mbit
             rret, rexc = None, None
             try:
-                rret = invoke(ref, None, eop, pos, tpos, on_engine=True)
+                rret = invoke(ref, None, eop, pos, tpos, on_engine=True, rot=rot)
                 if op == "meas":
                     ref.remove_qubit(pos)
             except Exception as e:                                    # noqa: BLE001 — T / rotation on this backend
@@ -939,6 +1049,10 @@ class NodeRun:
                 viol("on-state", "state/outcome of the live register differ from joint pre-state -> %s at position %d -> "
                      "operation (outcome %r, reference %r)" % ("/".join(str(m[0]) for m in tried), pos, ret,
                                                                [m[2] for m in tried]), hard=True)
+        # ---- the operation restarts the idle clock of the qubit operated on (also when the backend refuses it)
+        if exc == exp_exc and own_clock != now:
+            viol("own-clock", "the operation did not restart the qubit's idle clock: last_accessed = %r, clock at the "
+                 "operation = %r (it was %r before)" % (own_clock, now, last))
         # ---- nobody else's idle clock moves (bystanders locked with the register, the target of the gate)
         moved = {l: (clocks_before[l], o.last_accessed) for l, o in others.items() if o.last_accessed != clocks_before[l]}
         if moved:
@@ -1090,6 +1204,14 @@ def node_stage(ctx, w, res, rng, queries):
             tgt = "c" if op in ("cnot", "cphase") else None
             go({"nodes": nodes, "T1": 2.0, "t0": 1000.0, "layout": name,
                 "steps": [list(s) for s in setup] + [["tick", 3.0], ["op", op, "b", tgt, x, 0, "virt"]]})
+    # rotations by a whole number of turns / Clifford / arbitrary angles on a re-homed qubit, every band, both routes:
+    # the backend refuses every rotation, AFTER the noise was applied and the idle clock restarted
+    for angle in (ROT_ANGLES if ctx.thorough else ROT_ANGLES[:3] + rng.sample(ROT_ANGLES[3:], 2)):
+        for x in band_draws(p)[:4]:
+            via = "virt" if rng.random() < 0.6 else "sim"
+            go({"nodes": nodes, "T1": 2.0, "t0": 1000.0, "layout": name + "+rot",
+                "steps": [list(s) for s in setup] + [["tick", 3.0], ["op", "rot", "b", None, x, 0, via,
+                                                                      [list(rng.choice(ROT_AXES)), angle]]]})
     # bystanders: b idles while a gate between a and c runs in its register (b is locked, not operated on),
     # then b is operated on: its noise must reflect b's whole idle time
     for (name, nodes, setup, labels) in (layouts[2], layouts[3], layouts[8]):
@@ -1150,7 +1272,8 @@ def random_scenario(w, rng):
         p = (1 - math.exp(-now_idle[lab] / T1)) / 4
         x = rng.choice(band_draws(p)) if (p > 0 and rng.random() < 0.7) else rng.random()
         via = "virt" if (op == "meas" or rng.random() < 0.7) else "sim"
-        steps.append(["op", op, lab, tgt, x, rng.randrange(2), via])
+        steps.append(["op", op, lab, tgt, x, rng.randrange(2), via] +
+                     ([[list(rng.choice(ROT_AXES)), rng.choice(ROT_ANGLES)]] if op == "rot" else []))
         now_idle[lab] = 0.0
         if op == "meas":
             labels.remove(lab)
